@@ -89,7 +89,7 @@ def C02(tier):
              gen=dict(count=(4000, 24000), params={"kinds": "select/bulk", "oor_den": "0"})),
         # lanes beyond the usual small-array thresholds of sorting code (120..200 elements)
         dict(name="long_lanes", family="sort", trace="Trace_Sort", trace_constants=FIX, profile="dev", chunk=40,
-             gen=dict(count=(240, 2400), params={"kinds": "select/bulk", "oor_den": "0", "long": "1"}), params={"frame": "1"}),
+             gen=dict(count=(240, 2400), params={"kinds": "select/bulk", "oor_den": "0", "long": "1", "bigstride": "0"}), params={"frame": "1"}),
         # runs of 70..260 equal values: recursion as deep as the run is long whatever the pivots are
         dict(name="deep_recursion", family="sort", trace="Trace_Sort", trace_constants=FIX, profile="dev", chunk=40,
              gen=dict(count=(200, 2000), params={"kinds": "select/bulk", "oor_den": "0", "deep": "1"})),
@@ -285,7 +285,7 @@ def C19(tier):
 def C03(tier):
     stages = [
         dict(name="sort_frame", family="sort", trace="Trace_Sort", trace_constants=FIX, profile="dev", chunk=3000,
-             gen=dict(count=(3000, 18000), params={"oor_den": "6"}), params={"frame": "1"}),
+             gen=dict(count=(3000, 18000), params={"oor_den": "6", "bigstride": "0"}), params={"frame": "1"}),
         dict(name="sort_frame_model", family="sort", trace="Trace_Sort", trace_constants=FIX, profile="dev",
              cases_from=["MC_Select_emit", "MC_Partition_emit"], params={"frame": "1", "strides": "2/-3"}),
         dict(name="quantile_frame", family="quant", trace="Trace_Quant", profile="dev", gen=dict(count=(2500, 25000))),
@@ -295,7 +295,7 @@ def C03(tier):
         dict(name="sort_panicking_comparisons", family="sort", trace="Trace_Sort", trace_constants=FIX, profile="dev", chunk=3000,
              gen=dict(count=(1500, 10000), params={"kinds": "poison", "oor_den": "0"})),
         dict(name="sort_frame_long_lanes", family="sort", trace="Trace_Sort", trace_constants=FIX, profile="dev", chunk=40,
-             gen=dict(count=(240, 2400), params={"oor_den": "0", "long": "1"}), params={"frame": "1"}),
+             gen=dict(count=(240, 2400), params={"oor_den": "0", "long": "1", "bigstride": "0"}), params={"frame": "1"}),
     ]
     models = [
         dict(module="Partition", name="MC_Partition",
